@@ -33,8 +33,8 @@ theorem secret_tag_eq :
     = [SecretTag.unknownPathSecret, SecretTag.staleKey, SecretTag.replayDetected, SecretTag.hasQueueId] := by decide
 
 theorem secret_tag_shape_eq :
-    [secretTagAcceptsTwo, secretDispatchMasksQueueBit, secretDecoderTakesTagLen, upsTokenCompare]
-    = [true, true, true, true] := by decide
+    [secretTagAcceptsTwo, secretDispatchMasksQueueBit, secretDecoderTakesTagLen, upsTokenCompare, secretAuthVerifiesHeader]
+    = [true, true, true, true, true] := by decide
 
 /-- every tag length is 16 and the secret-control packets fit their 64-byte buffer -/
 theorem tag_len_eq :
